@@ -9,17 +9,20 @@ package main
 import (
 	"bufio"
 	"bytes"
+	"context"
 	"encoding/json"
 	"errors"
 	"fmt"
 	"io"
 	"math/rand"
+	"net"
 	"os"
 	"runtime"
 	"strconv"
 	"strings"
 	"sync"
 	"sync/atomic"
+	"syscall"
 	"time"
 
 	"github.com/fxamacker/cbor/v2"
@@ -232,10 +235,34 @@ func (f *faultWriter) close(kind string) {
 	f.closed = kind
 	f.mu.Unlock()
 	if kind == "ioerr" {
-		_ = f.w.CloseWithError(errors.New("injected read error"))
+		_ = f.w.CloseWithError(readErrValue(f.fault))
 	} else {
 		_ = f.w.CloseWithError(nil)
 	}
+}
+
+// readErrValue is the error every Read returns from the fault on (sticky). Val selects the VALUE:
+// a plain error, errors that claim Timeout() and Temporary() (an expired read deadline: *net.OpError
+// and *os.PathError around os.ErrDeadlineExceeded, context.DeadlineExceeded), a closed pipe, a
+// connection reset.
+func readErrValue(f *atpcs.Fault) error {
+	v := byte(0)
+	if f != nil {
+		v = f.Val
+	}
+	switch v % 6 {
+	case 1:
+		return &net.OpError{Op: "read", Net: "unix", Err: os.ErrDeadlineExceeded}
+	case 2:
+		return &os.PathError{Op: "read", Path: "|0", Err: os.ErrDeadlineExceeded}
+	case 3:
+		return context.DeadlineExceeded
+	case 4:
+		return io.ErrClosedPipe
+	case 5:
+		return syscall.ECONNRESET
+	}
+	return errors.New("injected read error")
 }
 
 // gates are opened by the director (op "open").
@@ -318,6 +345,7 @@ type server struct {
 	nMsgs    int
 	nSigs    int
 	ws       map[string]bool
+	wsn      map[string]int
 	gotDone  bool
 	readEnd  bool
 	giveUp   time.Duration
@@ -440,6 +468,7 @@ func (s *server) readLoop(r io.Reader, closeRead func()) {
 		switch kind {
 		case "ws":
 			s.ws[run] = true
+			s.wsn[run]++
 		case "sig":
 			s.nSigs++
 		case "cdone":
@@ -477,6 +506,20 @@ func (s *server) script(sess atpcs.Session, w *faultWriter) {
 		case "doneif":
 			s.mu.Lock()
 			seen := s.ws[o.R]
+			s.mu.Unlock()
+			if seen {
+				oo := o
+				oo.Op = "done"
+				b := atpcs.MsgBytes(oo, sess.Ver, sess.BadSchema)
+				s.write(w, "done", o.R, b)
+			}
+		case "expectwsn":
+			// the N-th work-start of run R - or the director's word (mark) that there will be none
+			r, n := o.R, o.N
+			s.waitFor(func() bool { return s.wsn[r] >= n || s.mark >= 1 || s.readEnd })
+		case "doneifn":
+			s.mu.Lock()
+			seen := s.wsn[o.R] >= o.N
 			s.mu.Unlock()
 			if seen {
 				oo := o
@@ -642,7 +685,7 @@ func runJob(job atpcs.Job) (res atpcs.JobResult) {
 	cw := &failingWriter{w: c2sW, after: job.WriteFailAfter, deliver: job.WriteFailDeliver, gates: gt, rec: rec}
 	cli := atp.NewClient(chanRW{s2cR, cw})
 
-	srv := &server{rec: rec, ws: map[string]bool{}, giveUp: timeout / 3, fw: fw}
+	srv := &server{rec: rec, ws: map[string]bool{}, wsn: map[string]int{}, giveUp: timeout / 3, fw: fw}
 	srv.cond = sync.NewCond(&srv.mu)
 	srv.stop = make(chan struct{})
 	if job.Session.Backpressure > 0 {
@@ -735,6 +778,83 @@ func runJob(job atpcs.Job) (res atpcs.JobResult) {
 		}
 	}
 
+	var exMu sync.Mutex
+	var startExec func(o atpcs.DOp)
+	startExec = func(o atpcs.DOp) {
+		x := &execState{run: o.R, done: make(chan struct{})}
+		if o.To {
+			x.to = make(chan schema.Input, o.Pre)
+			for i := 0; i < o.Pre; i++ {
+				x.to <- schema.Input{RunID: o.R, ID: "sg", InputData: "d"}
+			}
+		}
+		if o.From {
+			x.from = make(chan schema.Input)
+			hold := o.Hold
+			reissue := o.Reissue
+			go func(ch chan schema.Input) {
+				if hold {
+					gt.wait("consumer:"+x.run, timeout)
+				}
+				for sg := range ch {
+					rec.add(atpcs.Ev{K: "gotsig", Run: x.run, Msg: sg.RunID + "/" + sg.ID})
+				}
+				rec.add(atpcs.Ev{K: "sigclosed", Run: x.run})
+				if reissue {
+					// a caller that re-runs the step as soon as its signal channel is closed, i.e. at
+					// the moment the result is stored - possibly before the first call has collected it
+					startExec(atpcs.DOp{Op: "exec", R: x.run})
+				}
+			}(x.from)
+		}
+		exMu.Lock()
+		execs[o.R+"#"+strconv.Itoa(len(order))] = x
+		execs[o.R] = x
+		order = append(order, x)
+		exMu.Unlock()
+		var toCh <-chan schema.Input
+		var fromCh chan<- schema.Input
+		if x.to != nil {
+			toCh = x.to
+		}
+		if x.from != nil {
+			fromCh = x.from
+		}
+		stepID := "s"
+		switch o.Sid {
+		case "":
+		case "-":
+			stepID = ""
+		default:
+			stepID = o.Sid
+		}
+		var input any = map[string]any{"name": "n"}
+		if o.Bad {
+			input = map[string]any{"nosuchfield": 1}
+		}
+		started := make(chan struct{})
+		go func() {
+			defer close(x.done)
+			defer func() {
+				if p := recover(); p != nil {
+					x.panicked = p
+					rec.add(atpcs.Ev{K: "ret", Fn: "Execute", Run: x.run, Err: true, ErrS: fmt.Sprint("panic: ", p)})
+				}
+			}()
+			x.g = goid()
+			rec.add(atpcs.Ev{K: "call", Fn: "Execute", Run: x.run, To: x.to != nil, From: x.from != nil})
+			close(started)
+			x.res = cli.Execute(schema.Input{RunID: x.run, ID: stepID, InputData: input}, toCh, fromCh)
+			e := atpcs.Ev{K: "ret", Fn: "Execute", Run: x.run}
+			if x.res.Error != nil {
+				e.Err, e.ErrS = true, x.res.Error.Error()
+			} else {
+				e.Out = atp.VerifPayloadKey(x.res.OutputID, x.res.OutputData)
+			}
+			rec.add(e)
+		}()
+		<-started
+	}
 	for _, o := range job.Session.Dir {
 		if verdict == "hang" || verdict == "closehang" {
 			break
@@ -770,77 +890,23 @@ func runJob(job atpcs.Job) (res atpcs.JobResult) {
 				setVerdict("hang")
 			}
 		case "exec":
-			x := &execState{run: o.R, done: make(chan struct{})}
-			if o.To {
-				x.to = make(chan schema.Input, o.Pre)
-				for i := 0; i < o.Pre; i++ {
-					x.to <- schema.Input{RunID: o.R, ID: "sg", InputData: "d"}
-				}
-			}
-			if o.From {
-				x.from = make(chan schema.Input)
-				hold := o.Hold
-				go func(ch chan schema.Input) {
-					if hold {
-						gt.wait("consumer:"+x.run, timeout)
-					}
-					for sg := range ch {
-						rec.add(atpcs.Ev{K: "gotsig", Run: x.run, Msg: sg.RunID + "/" + sg.ID})
-					}
-					rec.add(atpcs.Ev{K: "sigclosed", Run: x.run})
-				}(x.from)
-			}
-			execs[o.R+"#"+strconv.Itoa(len(order))] = x
-			execs[o.R] = x
-			order = append(order, x)
-			var toCh <-chan schema.Input
-			var fromCh chan<- schema.Input
-			if x.to != nil {
-				toCh = x.to
-			}
-			if x.from != nil {
-				fromCh = x.from
-			}
-			stepID := "s"
-			switch o.Sid {
-			case "":
-			case "-":
-				stepID = ""
-			default:
-				stepID = o.Sid
-			}
-			var input any = map[string]any{"name": "n"}
-			if o.Bad {
-				input = map[string]any{"nosuchfield": 1}
-			}
-			started := make(chan struct{})
-			go func() {
-				defer close(x.done)
-				defer func() {
-					if p := recover(); p != nil {
-						x.panicked = p
-						rec.add(atpcs.Ev{K: "ret", Fn: "Execute", Run: x.run, Err: true, ErrS: fmt.Sprint("panic: ", p)})
-					}
-				}()
-				x.g = goid()
-				rec.add(atpcs.Ev{K: "call", Fn: "Execute", Run: x.run, To: x.to != nil, From: x.from != nil})
-				close(started)
-				x.res = cli.Execute(schema.Input{RunID: x.run, ID: stepID, InputData: input}, toCh, fromCh)
-				e := atpcs.Ev{K: "ret", Fn: "Execute", Run: x.run}
-				if x.res.Error != nil {
-					e.Err, e.ErrS = true, x.res.Error.Error()
-				} else {
-					e.Out = atp.VerifPayloadKey(x.res.OutputID, x.res.OutputData)
-				}
-				rec.add(e)
-			}()
-			<-started
+			startExec(o)
 		case "join":
-			if x := execs[o.R]; x != nil {
+			exMu.Lock()
+			x := execs[o.R]
+			exMu.Unlock()
+			if x != nil {
 				join(x)
 			}
 		case "joinall":
-			for _, x := range order {
+			for i := 0; ; i++ {
+				exMu.Lock()
+				if i >= len(order) {
+					exMu.Unlock()
+					break
+				}
+				x := order[i]
+				exMu.Unlock()
 				join(x)
 				if verdict == "hang" {
 					break // one timeout is enough to know; the others would each cost another
@@ -880,6 +946,17 @@ func runJob(job atpcs.Job) (res atpcs.JobResult) {
 			time.Sleep(time.Duration(o.N) * time.Millisecond)
 		case "open":
 			gt.open(o.R)
+		case "awaitexecs":
+			deadline := time.Now().Add(timeout / 2)
+			for time.Now().Before(deadline) {
+				exMu.Lock()
+				n := len(order)
+				exMu.Unlock()
+				if n >= o.N {
+					break
+				}
+				time.Sleep(200 * time.Microsecond)
+			}
 		case "awaitws":
 			r := o.R
 			srv.waitFor(func() bool { return srv.ws[r] })
@@ -1084,6 +1161,9 @@ func strictRun(s atpcs.Session, run string) bool {
 	for _, o := range s.Dir {
 		if o.Op == "exec" && o.R == run {
 			n++
+			if o.Reissue {
+				n++ // the run ID is used twice
+			}
 		}
 		if o.Op == "aclose" {
 			return false
